@@ -136,6 +136,9 @@ func cmdC02(args []string) error {
 		return err
 	}
 	defer tw.close()
+	if *mode == "apreq-background" {
+		return c02apreqBackground(tw, r, *rounds)
+	}
 	if *mode == "apreq-dated" {
 		return c02apreqDated(tw, r, *maxLen) // before anything creates the process-wide cache
 	}
